@@ -25,6 +25,10 @@ import (
 	"os"
 	"path/filepath"
 	"strings"
+	goscanner "go/scanner"
+	gotoken "go/token"
+	"strconv"
+	"sort"
 )
 
 type Violation struct {
@@ -219,4 +223,43 @@ func Main(prop string, f PropFunc) {
 	}
 	b, _ := json.MarshalIndent(stats, "", " ")
 	os.WriteFile(filepath.Join(*out, "stats.json"), b, 0o644)
+}
+
+
+// SourceLiterals returns the distinct integer literals (< 2^32) that occur in the given Go source files of
+// the tree under check (relative to VERIF_REPO, default /repo), ascending.  Generators use them as a
+// dictionary: a comparison against a constant in the code under test is reached by inputs that contain
+// that constant, whatever the constant is after a change to the code.
+func SourceLiterals(relFiles ...string) []uint32 {
+	root := os.Getenv("VERIF_REPO")
+	if root == "" {
+		root = "/repo"
+	}
+	set := map[uint32]bool{}
+	for _, rf := range relFiles {
+		src, err := os.ReadFile(filepath.Join(root, rf))
+		if err != nil {
+			continue
+		}
+		var sc goscanner.Scanner
+		fs := gotoken.NewFileSet()
+		sc.Init(fs.AddFile(rf, fs.Base(), len(src)), src, nil, 0)
+		for {
+			_, tok, lit := sc.Scan()
+			if tok == gotoken.EOF {
+				break
+			}
+			if tok == gotoken.INT {
+				if v, err := strconv.ParseUint(strings.ReplaceAll(lit, "_", ""), 0, 64); err == nil && v < 1<<32 {
+					set[uint32(v)] = true
+				}
+			}
+		}
+	}
+	var out []uint32
+	for v := range set {
+		out = append(out, v)
+	}
+	sort.Slice(out, func(i, j int) bool { return out[i] < out[j] })
+	return out
 }
